@@ -585,6 +585,51 @@ def ancestor_task(p, cfg, rec):
                 sys.stdout = old
         for an, t in texts[1:]:
             equivalent_texts(p, 'module %s requested from %s vs from %s' % (nm, an, texts[0][0]), texts[0][1], t)
+    # a sub-block with a clock driver of its own (gated domain 'gclk' under a root on 'clk'): its module as it appears inside the text
+    # of the WHOLE system must have the interface of the module requested for the block itself
+    from vlog.parser import parse as _parse
+    with quiet():
+        s2 = py4hw.HWSystem()
+        d_, q_, q2_, en_, gck_ = s2.wire('d', 8), s2.wire('q', 8), s2.wire('q2', 8), s2.wire('en', 1), s2.wire('gclk', 1)
+        py4hw.Buf(s2, 'clkgate', en_, gck_)
+
+        def stage(b, dd=None):
+            pass
+
+        def mkstage(name, dd, qq):
+            def body(b):
+                m = b.wire('m', 8)
+                Reg(b, 'r0', dd, m)
+                Reg(b, 'r1', m, qq)
+            return D.Box(s2, name, {'d': dd}, {'q': qq}, body)
+        plain = mkstage('plain', d_, q2_)
+        slow = mkstage('slow', d_, q_)
+        slow.clockDriver = py4hw.ClockDriver('gclk', base=s2.clockDriver, enable=en_, wire=gck_)
+    try:
+        out = io.StringIO()
+        old_ = sys.stdout
+        sys.stdout = out
+        try:
+            whole = py4hw.VerilogGenerator(s2).getVerilogForHierarchy()
+            own = py4hw.VerilogGenerator(slow).getVerilogForHierarchy(noInstanceNumberInTopEntity=False)
+        finally:
+            sys.stdout = old_
+        p.res['programs'] += 2
+        mname = py4hw.getVerilogModuleName(slow, noInstanceNumber=False) if 'noInstanceNumber' in py4hw.getVerilogModuleName.__code__.co_varnames else None
+        mods_whole = {m.name: m for m in _parse(whole)}
+        mods_own = _parse(own)
+        top_own = mods_own[0]
+        cand = [m for n, m in mods_whole.items() if n == top_own.name]
+        if not cand:
+            p.inconclusive('gated sub-block', 'module %s not found in the text of the whole system' % top_own.name)
+        else:
+            pa = [(q.direction, q.name) for q in cand[0].ports]
+            pb = [(q.direction, q.name) for q in top_own.ports]
+            p.structural('module of a sub-block with its own clock driver: same ports inside the system text and when requested for the block itself',
+                         sorted(pa) == sorted(pb), detail={'inside the system text': pa, 'requested for the block': pb})
+    except Exception as e:
+        p.res['refused'] += 1
+        p.note('gated sub-block: generator refused: %r' % e)
 
 
 def tasks_for(tier):
